@@ -91,17 +91,29 @@ def fc(node):
 
 
 def ga(node):
-    """Generator member: yields between the child groups."""
+    """Generator member: yields between the child groups.  The first yield is the value of an
+    unpacking assignment; with node["swallow"] a close()/drop at a yield is absorbed and the
+    generator returns normally instead of letting GeneratorExit propagate."""
     u = node["u0"]
     w = node["w0"]
     _kids(node["pre"])
-    yield u
+    try:
+        p, q = (yield u) or (0, 0)
+    except GeneratorExit:
+        if node.get("swallow"):
+            return None
+        raise
     if node["ru"] is not None:
         u = node["ru"]
     if node["rw"] is not None:
         w = node["rw"]
     _kids(node["post"])
-    yield w
+    try:
+        yield w
+    except GeneratorExit:
+        if node.get("swallow"):
+            return None
+        raise
     if node["raises"]:
         raise Boom(node["id"])
     return node["ret"]
